@@ -26,6 +26,8 @@ import BumpProof.Coll.Iter
 import BumpProof.Coll.Split
 import BumpProof.Coll.Rev
 import BumpProof.Coll.Splice
+import BumpProof.Coll.MapVec
+import BumpProof.Coll.Flatten
 
 namespace Driver.CollD
 open Coll
@@ -137,6 +139,16 @@ def parseScript (s : String) : Option (List Pull) :=
   if s == "-" || s == "" then some []
   else s.toList.mapM fun c => if c == 'f' then some Pull.front else if c == 'b' then some Pull.back else none
 
+/-- `into_flattened` of a vector of arrays announced as its buffer of `T`-sized slots -/
+def runFlatten (v : Vec) (o : List Outcome) (rest : List String) : Option OpRes := do
+  let n ← (kvOf rest "n").bind String.toNat?
+  let arrLen ← (kvOf rest "arrlen").bind String.toNat?
+  let arrCap ← (kvOf rest "arrcap").bind String.toNat?
+  let (w, claimed) := intoFlattened { n := n, arrLen := arrLen, arrCap := arrCap, flat := v.slots, dropLog := v.dropLog }
+  -- the capacity the result CLAIMS must be the buffer; anything else shows up as a different `cap=`
+  let w := if claimed == w.cap then w else { w with slots := H claimed }
+  some (.ok ({ w with escaped := v.escaped }, "ret", o))
+
 /-- operations with an iterator script / a second operand / that consume the vector:
     `some (result, consumed?)` -/
 def runSpecial (env : Env) (v : Vec) (name : String) (args : List Nat) (o : List Outcome) (rest : List String) :
@@ -151,6 +163,14 @@ def runSpecial (env : Env) (v : Vec) (name : String) (args : List Nat) (o : List
     let pulls := ((kvOf rest "pulls").bind String.toNat?).getD 0
     let hint := ((kvOf rest "hint").bind String.toNat?).getD 1000000
     pure ((pack showYields (splice env v a b src hint (List.replicate pulls Pull.front))).map (fun (a, b, _) => (a, b, o)), false)
+  | "into_flattened", [] => (runFlatten v o rest).map (·, false)
+  | "map_vec", [] => do
+    let st ← (kvOf rest "st").bind String.toNat?
+    let su ← (kvOf rest "su").bind String.toNat?
+    let al := (kvOf rest "al").getD "1" == "1"
+    let r := vecMap env.bombs { st := st, su := su, alignOk := al } v o
+    let consumed := match r with | .ok out => (match out.exit with | .panic _ => true | _ => false) | _ => false
+    some (pack showUnit r, consumed)
   | "extract_if", [calls] => some (pack csv (extractIf v calls o), false)
   | "into_iter", [] => do
     let script ← parseScript ((kvOf rest "s").getD "-")
@@ -175,6 +195,7 @@ def runRevOp (env : Env) (v : Vec) (name : String) (args : List Nat) (o : List O
     Option (OpRes × Bool) :=
   let keep (r : OpRes) : OpRes := r.map fun (a, b, _) => (a, b, o)
   match name, args with
+  | "into_flattened", [] => (runFlatten v o rest).map (·, false)
   | "push", [id] => some (keep (pack showUnit (rpush env v id)), false)
   | "pop", [] => some (keep (pack showOptId (rpop v)), false)
   | "clear", [] => some (keep (pack showUnit (rclear env.bombs v)), false)
